@@ -24,7 +24,8 @@ EXPLANATION = (
     ' Third round: no working object of parse_sentence has static / thread storage (locals:automatic).'
     ' Fifth round: the rule cache never shrinks during a search (lambdas included).'
     ' Sixth and seventh round: no module-level state in the grammar modules (R11.5), Tree carries every field through pickle and the categories use the generated hash (R11.3), no option name captured by a named parameter of run() (R11.4).'
-    ' Eighth round: nothing is done to the gathered results after the gather (R11.3); a tree is rebuilt per n-best entry, not shared below a chart item (R11.4).')
+    ' Eighth round: nothing is done to the gathered results after the gather (R11.3); a tree is rebuilt per n-best entry, not shared below a chart item (R11.4).'
+    ' Eleventh round: nothing leaves the validating loop of _type_check early (R11.1).')
 TRUSTED = ['CPython ast', 'clang-14 front end', 'sa/pyx.py normaliser', 'multiprocessing.Pool.apply_async/.get semantics']
 
 REL = 'depccg/parsing.py'
